@@ -173,6 +173,9 @@ def cases(block):
         for i in range(40):
             R = r0 + 1.5 * dr + (Ro - r0 - 2.6 * dr) * (i + 0.31 + ph) / 40
             yield {"grid": g, "drops": [[[0.0] * dim, R]], "classes": ["centred"]}
+        # droplets reaching into / covering the outermost cell (still inside the grid)
+        for frac in (1.3, 0.8, 0.4, 0.1, 0.0):
+            yield {"grid": g, "drops": [[[0.0] * dim, Ro - frac * dr * (1 + 0.1 * ph)]], "classes": ["centred"], "outer": True}
     elif k == "elong":
         shape, mask = block["shape"], block["mask"]
         dim = len(shape)
@@ -195,11 +198,19 @@ def cases(block):
             yield {"sequence": [probe_case(V[a], ph), probe_case(V[b], ph)]}
         for a, b, c in itertools.permutations(range(min(len(V), 4)), 3):
             yield {"sequence": [probe_case(V[a], ph), probe_case(V[b], ph), probe_case(V[c], ph)]}
+        # the caller keeps ONE grid object and analyses several images on it (state cached on the grid must not drift)
+        for gv in V:
+            yield {"sequence": [dict(probe_case(gv, ph + 0.07 * i), share_grid=True) for i in range(4)]}
     elif k == "cyl":
         shape, Ro, z, pz = block["shape"], block["R"], block["z"], block["pz"]
         dr = Ro / shape[0]
         dz = (z[1] - z[0]) / shape[1]
         g = {"kind": "cyl", "shape": shape, "R": Ro, "z": z, "periodic_z": pz}
+        # a droplet reaching the outer radial wall (covers the outermost radial cell centre), where the box is long enough
+        Rw = Ro - 0.2 * dr
+        if 2 * Rw + 2 * dz <= z[1] - z[0]:
+            zc = z[0] + (shape[1] // 2 + 0.3 + ph) * dz
+            yield {"grid": g, "drops": [[[0.0, 0.0, zc], Rw]], "classes": ["on-axis"], "outer": True}
         for rf in (1.6, 2.1, 2.7):
             R = rf * max(dr, dz)
             if R + dr > Ro:
@@ -235,6 +246,8 @@ def run_case(case, ctx):
         ctx.count("pairs-separated-by-the-other-axis-length")
     if g.get("r0"):
         ctx.count("annular-grid")
+    if case.get("outer"):
+        ctx.count("droplet-reaching-the-outer-wall")
     # ---- reference: covered sets + precondition screens ---------------
     covered = []
     for c, R in drops:
@@ -293,7 +306,7 @@ def run_case(case, ctx):
         ctx.count("two-droplets")
 
     # ---- drive the implementation -------------------------------------
-    grid = geom.make_grid(g)
+    grid = geom.make_grid(g, share=bool(case.get("share_grid")))
     em0 = Emulsion([SphericalDroplet(np.array(c, float), R) for c, R in drops])
     field = em0.get_phasefield(grid)
     ctx.op()
@@ -341,4 +354,4 @@ def run_case(case, ctx):
 def expected_positive(tier):
     return ["C01.count", "C01.volume", "C01.centre", "C01.inbox", "C01.integral", "straddling-periodic-boundary", "straddling-periodic-corner",
             "centre-outside-box", "anisotropic", "two-droplets", "covers>=3cells",
-            "grid-sequences", "pairs-separated-by-the-other-axis-length", "annular-grid"]
+            "grid-sequences", "pairs-separated-by-the-other-axis-length", "annular-grid", "droplet-reaching-the-outer-wall"]
